@@ -1,5 +1,6 @@
 """C09 — GridSearch trains a faithful best response per grid point and picks the argmin."""
 import itertools
+import json
 import os
 from fractions import Fraction as F
 
@@ -173,6 +174,30 @@ def labelings(case):
     vals = sorted(set(case["x"]))
     pos = {v: j for j, v in enumerate(vals)}
     return [[h[pos[v]] for v in case["x"]] for h in hypotheses(case["kind"], len(vals))]
+
+
+def has_history(case):
+    """~30 % of the fit cases (derived from the case content, so the generator's rng stream is untouched)"""
+    if case.get("kind") == "gen" or case.get("offset"):
+        return False
+    import random as _r
+    return _r.Random(json.dumps(case, sort_keys=True, default=str)).random() < 0.3
+
+
+def aux_data(X, y, sf):
+    """auxiliary data set of the previous life: rows reversed, labels inverted, first two rows dropped when long enough"""
+    import numpy as _np
+    import pandas as _pd
+    k = 2 if len(y) >= 6 else 0
+
+    def rev(a):
+        if isinstance(a, (_pd.DataFrame, _pd.Series)):
+            return a.iloc[::-1].iloc[k:].reset_index(drop=True)
+        return _np.asarray(a)[::-1][k:].copy() if not isinstance(a, list) else list(a)[::-1][k:]
+    ya = rev(y)
+    ya = [1 - int(v) for v in ya] if isinstance(ya, list) else 1 - ya
+    return rev(X), ya, rev(sf)
+
 
 
 @register
@@ -424,6 +449,16 @@ class CHECK(Check):
             grid_offset = pd.Series([float(v) for v in offset_of(case, keys)], index=probe.index)
         gs = red.GridSearch(ExactLearner(case["kind"], tag), moment, constraint_weight=float(F(case["cw"])),
                             grid_size=case["grid_size"], grid_limit=float(F(case["grid_limit"])), grid_offset=grid_offset)
+        if has_history(case):
+            # the same GridSearch (and the same constraints object) had a previous life: fit on other data + a prediction.
+            # Every clause is about the state after the LAST fit, whatever the call history.
+            try:
+                Xa, ya, sfa = aux_data(X, y, sf)
+                gs.fit(Xa, ya, sensitive_features=sfa)
+                gs.predict(Xa)
+            except (ZeroDivisionError, ValueError):
+                pass        # e.g. the known all-zero-weights crash (F12) on the auxiliary data: no previous life then
+            RECORDS.pop(tag, None)
         try:
             gs.fit(X, y, sensitive_features=sf)
         except (ZeroDivisionError, ValueError) as e:
@@ -784,7 +819,8 @@ class CHECK(Check):
             if "exc" in o:
                 tags.append("gen.exc=" + o["exc"])
             return (repr(sorted(case.items())), gsz >= 2, tags)
-        tags = [f"moment={case['moment']}", f"rows={len(case['x'])}", f"groups={len(set(case['g']))}",
+        tags = ["history=refit-after-a-previous-life" if has_history(case) else "history=fresh",
+                f"moment={case['moment']}", f"rows={len(case['x'])}", f"groups={len(set(case['g']))}",
                 f"values={len(set(case['x']))}", f"kind={case['kind']}", f"container={case.get('container')}",
                 "bound=ratio" if case.get("ratio") else "bound=diff",
                 "grid_size=" + ("2-5" if case["grid_size"] <= 5 else "6-15" if case["grid_size"] <= 15 else "16-60"),
